@@ -652,13 +652,22 @@ def try_to_hashable(
         return UnhashableError
 
 
+def _sort_key(x: Any) -> tuple:
+    """Total, process independent order for keys of mixed or only partially ordered types."""
+    if isinstance(x, tuple):
+        return (type(x).__name__, tuple(_sort_key(i) for i in x))
+    if isinstance(x, frozenset):
+        return (type(x).__name__, tuple(sorted(_sort_key(i) for i in x)))
+    return (type(x).__name__, x)
+
+
 def _hashable_iterable(
     iterable: Iterable,
     fallback_to_pickle: bool,  # noqa: FBT001
     *,
     sort: bool = False,
 ) -> tuple:
-    items = sorted(iterable) if sort else iterable
+    items = sorted(iterable, key=_sort_key) if sort else iterable
     return tuple(to_hashable(item, fallback_to_pickle) for item in items)
 
 
@@ -668,7 +677,7 @@ def _hashable_mapping(
     *,
     sort: bool = False,
 ) -> tuple:
-    items = sorted(mapping.items()) if sort else mapping.items()
+    items = sorted(mapping.items(), key=lambda kv: _sort_key(kv[0])) if sort else mapping.items()
     return tuple((k, to_hashable(v, fallback_to_pickle)) for k, v in items)
 
 
@@ -729,7 +738,7 @@ def to_hashable(  # noqa: C901, PLR0911, PLR0912
         )
         return (m, tp, data)
     if isinstance(obj, collections.Counter):
-        return (m, tp, tuple(sorted(obj.items())))
+        return (m, tp, tuple(sorted(obj.items(), key=lambda kv: _sort_key(kv[0]))))
     if isinstance(obj, dict):
         return (m, tp, _hashable_mapping(obj, fallback_to_pickle, sort=True))
     if isinstance(obj, set | frozenset):
